@@ -9,6 +9,7 @@ import (
 	"os"
 	"path/filepath"
 	"sort"
+	"syscall"
 	"time"
 
 	"github.com/miekg/dns"
@@ -59,6 +60,17 @@ func (ix *keyIndex) obsRRs(rrs []dns.RR) []KeyObs {
 		return out[i].Raw < out[j].Raw
 	})
 	return out
+}
+
+func inode(path string) uint64 {
+	fi, err := os.Lstat(path)
+	if err != nil {
+		return 0
+	}
+	if st, ok := fi.Sys().(*syscall.Stat_t); ok {
+		return st.Ino
+	}
+	return 0
 }
 
 func sum(b []byte) string {
@@ -127,6 +139,7 @@ func readDisk(dir string, ix *keyIndex) *DiskObs {
 		}
 	}
 
+	d.StateIno, d.TombIno = inode(sp), inode(tp)
 	ents, _ := os.ReadDir(dir)
 	sb, tb := filepath.Base(sp), filepath.Base(tp)
 	for _, e := range ents {
